@@ -97,7 +97,7 @@ type Macro struct {
 var clauseKeywords = map[string]bool{
 	"requires": true, "ensures": true, "modifies": true, "let": true, "ext": true, "loop": true,
 	"onwrite": true, "hint": true, "mode": true, "assume": true, "guards": true, "owns": true,
-	"invariant": true, "inline": true, "props": true, "by": true, "oncall": true, "atexit": true, "havoc": true, "assert": true, "locks": true, "premise": true, "witness": true, "purecalls": true, "oldlet": true, "builder": true, "dyntype": true, "inlinecalls": true, "sendinv": true, "recvinv": true, "summary": true, "use": true, "rely": true, "recorded": true, "beforecall": true, "returnsfresh": true, "reentrant": true, "noexitcover": true,
+	"invariant": true, "inline": true, "props": true, "by": true, "oncall": true, "atexit": true, "havoc": true, "assert": true, "locks": true, "premise": true, "witness": true, "purecalls": true, "oldlet": true, "builder": true, "dyntype": true, "inlinecalls": true, "sendinv": true, "recvinv": true, "summary": true, "use": true, "rely": true, "recorded": true, "beforecall": true, "returnsfresh": true, "reentrant": true, "noexitcover": true, "unguarded": true,
 }
 var topKeywords = map[string]bool{
 	"func": true, "extfunc": true, "pure": true, "ghost": true, "monitor": true, "lemma": true,
